@@ -12,19 +12,23 @@
 (* perturbative level (a wrong entry of an anomalous dimension, a matching element of the wrong   *)
 (* normalisation, a flavour dropped in a rotation) shows as several per cent to O(1).              *)
 (* Cells: kind x order x shape; shapes: fixed-flavour up / down by a factor 3 in scale, variable-   *)
-(* flavour up / down across the bottom matching scale.                                              *)
+(* flavour up / down across the bottom matching scale, and a five-flavour segment (also with QED).  *)
+(* The toy input carries a sizeable bottom content in every cell (intrinsic where bottom is not       *)
+(* active), so that heavy-quark entries of matchings and rotations weigh in the totals.                *)
 EXTENDS Naturals, Integers, Sequences, FiniteSets, TLC
 CONSTANT Thorough
 Kinds == {"unpolarized", "polarized"}
 ShapesAll == {"ffns-up", "ffns-down", "vfns-up", "vfns-down"}
 Cells == IF Thorough
          THEN [kind : Kinds, order : 1..3, qed : {0}, shape : ShapesAll]
-              \cup [kind : {"unpolarized"}, order : {1}, qed : {1}, shape : {"ffns-up"}]
+              \cup [kind : {"unpolarized"}, order : {1}, qed : {1}, shape : {"ffns-up", "ffns5-up"}]
+              \cup [kind : {"unpolarized"}, order : {1, 2}, qed : {0}, shape : {"ffns5-up"}]
          ELSE {[kind |-> "unpolarized", order |-> 1, qed |-> 0, shape |-> "ffns-up"],
                [kind |-> "unpolarized", order |-> 2, qed |-> 0, shape |-> "vfns-up"],
                [kind |-> "unpolarized", order |-> 2, qed |-> 0, shape |-> "vfns-down"],
                [kind |-> "polarized", order |-> 1, qed |-> 0, shape |-> "ffns-down"],
-               [kind |-> "polarized", order |-> 2, qed |-> 0, shape |-> "vfns-up"]}
+               [kind |-> "polarized", order |-> 2, qed |-> 0, shape |-> "vfns-up"],
+               [kind |-> "unpolarized", order |-> 1, qed |-> 1, shape |-> "ffns5-up"]}
 TolDecade == 2
 C05_Conserved(c, momDec, numDec) ==
   IF c.kind = "unpolarized" THEN momDec >= TolDecade /\ numDec >= TolDecade
